@@ -12,14 +12,14 @@ RULE = (
     "fields must be bit-identical.  Non-trivial transition = the DataFrame state changed."
 )
 BOUNDS = {
-    "quick": "16 operation instances, every history of depth <= 4 from two initial lists (default index; permuted and gapped index), de-duplicated on the complete state (list table + the caller's persistent dimension tables)",
-    "thorough": "16 operation instances, every history of depth <= 6 from the two initial lists",
+    "quick": "16 operation instances, every history of depth <= 4 from four initial lists (default labels; permuted and gapped labels; tomogram 2 only; reordered columns), de-duplicated on the complete state (list table + the caller's persistent dimension tables)",
+    "thorough": "16 operation instances, every history of depth <= 6 from the default and the permuted-gapped list, of depth <= 5 from the tomogram-2-only and the reordered-columns list",
 }
 ASSUMPTIONS = [
     "positions compared with absolute tolerance 1e-8, rotation matrices with 1e-9 (analytic error of as_euler/from_euler round trips is ~1e-13 per step)",
     "particles: generic, theta=0 gimbal lock with half-integer coordinates, out-of-range angles with shifts of both signs, theta=180 gimbal lock; two tomograms",
 ]
-BUDGET_S = {"quick": 300, "thorough": 3000}
+BUDGET_S = {"quick": 300, "thorough": 3600}
 
 POSE = ["x", "y", "z", "shift_x", "shift_y", "shift_z", "phi", "psi", "theta"]
 OTHER = [c for c in COLS if c not in POSE]
@@ -64,8 +64,9 @@ def pose_of(df):
 
 
 class Spec(BFSSpec):
-    def __init__(self, seed):
+    def __init__(self, seed, lists=None):
         self.seed = seed
+        self.lists = lists   # indices of the initial lists to start from (None = all four)
         self.rows = particles(seed)
         self.Q = {"Rz90": so3.Rz(90.0), "generic": generic_Q(seed)}
 
@@ -89,6 +90,8 @@ class Spec(BFSSpec):
             dims = {"single-df": pd.DataFrame([DIM_SINGLE], columns=["x", "y", "z"]),
                     "table-df": pd.DataFrame(DIM_TABLE.copy(), columns=["tomo_id", "x", "y", "z"])}
             out.append((name, {"m": m, "p": p, "R": R, "dims": dims}))
+        if self.lists is not None:
+            out = [out[i] for i in self.lists]
         return out
 
     def ops(self, st):
@@ -211,11 +214,11 @@ class Spec(BFSSpec):
 
 
 def families(tier, seed):
-    depth = 4 if tier == "quick" else 6
-    return [
-        BFSFamily(
-            "pose-histories", Spec(seed), max_depth=depth,
-            expect=("complete-position", "orientation", "non-pose-fields-unchanged", "xyz-integral", "shift-within-half",
-                    "accessor-x-plus-shift", "accessor-zxz-matrix"),
-        )
-    ]
+    exp = ("complete-position", "orientation", "non-pose-fields-unchanged", "xyz-integral", "shift-within-half",
+           "accessor-x-plus-shift", "accessor-zxz-matrix")
+    if tier == "quick":
+        return [BFSFamily("pose-histories", Spec(seed), max_depth=4, expect=exp)]
+    # thorough: depth 6 from the two four-particle lists (default and permuted / gapped labels), depth 5 from the two other
+    # representations (measured: depth 6 from all four lists is 6.3e6 transitions and does not finish inside the budget)
+    return [BFSFamily("pose-histories", Spec(seed, lists=(0, 1)), max_depth=6, expect=exp),
+            BFSFamily("pose-histories-other-representations", Spec(seed, lists=(2, 3)), max_depth=5, expect=exp)]
